@@ -49,6 +49,18 @@ PROPS = {
         "rule": "seeded histories (6-40 events) of RTM_NEWROUTE / RTM_DELROUTE / RTM_NEWNEIGH over 2 interfaces x 3 next hops x 4 prefixes (default route included), several routes per next hop, deletion of unresolved routes, delivered through the real netlink handler methods of conf/route_control.py; after EVERY event the module graph rebuilt from the calls received by a BESS-like recording client is compared with a reference model of kernel routes and neighbours; distinct = distinct <length, event-kind set, first 8 event kinds>",
         "floors": {"quick": {"netlink_events_delivered": 20000, "graph_comparisons": 20000}, "thorough": {"netlink_events_delivered": 1000000}},
     },
+    "C07": {
+        "test": "TestVerif_C07", "level": "exploration", "owns_races": True,
+        "rule": "(a) sequential Allocate/FreeID histories with the 32-bit cursor placed at 0, 1, 2^32-6..2^32-2 and random positions, holes freed and re-allocated, against a set model; (b) concurrent Allocate/FreeID histories (3-8 goroutines) checked for linearizability with porcupine against a set of unique non-zero ids; (c) establishment histories with adversarial random sources installed on the association (constant, period-2/3 cycles, sequences containing 0, repeating prefixes), interleaved deletions; (d) establishments with one or two CHOOSE PDRs from 2-6 concurrent associations with the cursor near the wrap, reported F-SEID/TEIDs compared with the fields of the entries at the harness BESS server; distinct = <cursor region, wrapped?>, overlapping concurrent histories by shape, <source kind, establishments, draws>, <associations, TEIDs>",
+        "shards": {"quick": 12, "thorough": 16}, "timeout": {"quick": 600, "thorough": 12000}, "gomaxprocs": 8,
+        "floors": {"quick": {"teid_concurrent_histories": 1000, "fseid_establishments": 150, "chosen_teids_observed": 150}, "thorough": {"teid_concurrent_histories": 50000}},
+    },
+    "C12": {
+        "test": "TestVerif_C12", "level": "fault_enumeration",
+        "rule": "fault enumeration with a scripted lossy peer: for N in {1,2,3} answer exactly the k-th transmission (k=1..N+1) or none, on the heartbeat path and on the agent-initiated association path (cpiface.peers); late / duplicated / wrong-sequence / wrong-type responses; peer heartbeats before and after association (constant Recovery Time Stamp, postponement of the agent's own heartbeat); 4 feature configurations x {datapath up, down} x both datapaths; BESS server stop/start around association attempts and UP4 never connected; distinct = <scenario kind, N, k, variant>",
+        "shards": {"quick": 16, "thorough": 16}, "timeout": {"quick": 600, "thorough": 8000},
+        "floors": {"quick": {"agent_request_transmissions_observed": 30, "feature_sets_checked": 6, "updown_states_checked": 3}, "thorough": {"agent_request_transmissions_observed": 800}},
+    },
     "C10": {
         "test": "TestVerif_C10", "level": "exploration",
         "rule": "scenario = {0..n associations (some >100)} x {0-3 sessions} x trigger per association {release, silence->read timeout(+heartbeat failure), unanswered heartbeats, live} x requests in flight x datapath reply delay x PFCPIface.Stop() at a drawn offset (+-3.5 ms around the coinciding triggers), fresh agent per scenario, plus a 'refresh' family (association ends without Stop, same address:port associates afresh, bystander association checked); distinct = distinct interleaving signatures (datapath, heartbeat on/off, delay, stop offset in ms, multiset of per-association <trigger, order relative to Stop, release answered?, sessions>)",
